@@ -117,6 +117,12 @@ func (g *Gen) run() {
 	}
 	g.runFrame()
 	// an `assert at <anchor>` whose anchor never occurred no longer binds to the code
+	for _, ga := range c.GhostAts {
+		if !g.firedAnchors["ghost:"+ga.Anchor] {
+			g.curR = "true"
+			g.ob("anchor-binding", "ghost", "false", "anchor `"+ga.Anchor+"` of a ghost update does not occur in the function any more")
+		}
+	}
 	for _, a := range c.Asserts {
 		if !g.firedAnchors[a.Anchor] {
 			g.curR = "true"
